@@ -27,7 +27,7 @@ func init() {
 	fw.Register(&fw.Property{
 		ID:    "C15",
 		Level: "fault_enumeration",
-		Rule: "ENUMERATED limits per persisted log: log shape {single chain of 5-40, two heads (local + replicated branch of unequal length), three heads, merged fork under one head} x limit n in {-5, -1, 0, 1, 2, shortest branch -1/0/+1, total-1, total, total+1, total+50} x {Load(n) per call on a fresh store, Load(n) on a fresh store that already received the entries through replication, NewStoreOptions.MaxHistory = n with Load(0) on a store built with the public constructor over the same cache directory} x store type; the log is written, the instance closed and a fresh instance loads it; in per-call mode the same handle is then loaded twice more with the same limit, each time after 1-3 newer entries were persisted through a sibling handle of the same instance. One limit per case (a crash is attributed to the limit). " +
+		Rule: "ENUMERATED limits per persisted log: log shape {single chain of 5-40, two heads (local + replicated branch of unequal length), three heads, merged fork under one head} x limit n in {-5, -1, 0, 1, 2, shortest branch -1/0/+1, total-1, total, total+1, total+50} x {Load(n) per call on a fresh store, the same followed by local writes and a complete reload, Load(n) on a fresh store that already received the entries through replication, NewStoreOptions.MaxHistory = n with Load(0) on a store built with the public constructor over the same cache directory} x store type; the log is written, the instance closed and a fresh instance loads it; in per-call mode the same handle is then loaded twice more with the same limit, each time after 1-3 newer entries were persisted through a sibling handle of the same instance; in the then-write mode (limits 1, 2, shortest branch, total-1) the application writes 1-2 entries through the partially loaded handle, the instance is restarted once more and Load(-1) must list every entry persisted before plus the new ones. One limit per case (a crash is attributed to the limit). " +
 			"distinct = (shape, lengths, limit relative to the log, mode, store type); non-trivial = total >= 2 and the load returned",
 		Assumptions: []string{"logs are sampled, limits enumerated", "MaxHistory mode uses a wildcard write list so that the constructor-built store's simple controller is equivalent"},
 		Cases:       c15Cases,
@@ -55,7 +55,10 @@ func c15Cases(tier string, seed int64) []fw.Case {
 				a = 5 + rng.Intn(36)
 			}
 			for _, lim := range []string{"-5", "-1", "0", "1", "2", "short-1", "short", "short+1", "total-1", "total", "total+1", "total+50"} {
-				for mi, mode := range []string{"per-call", "max-history", "per-call-after-replication"} {
+				for mi, mode := range []string{"per-call", "max-history", "per-call-after-replication", "per-call-then-write"} {
+					if mode == "per-call-then-write" && lim != "1" && lim != "2" && lim != "short" && lim != "total-1" {
+						continue
+					}
 					if mode == "per-call-after-replication" && (shape == "chain" || (lim != "1" && lim != "short" && lim != "total-1" && lim != "total+1")) {
 						continue
 					}
@@ -155,7 +158,7 @@ func c15Run(c fw.Case) fw.Verdict {
 	ctx, cancel := context.WithTimeout(bg, 60*time.Second)
 	defer cancel()
 	var loadErr error
-	if mode == "per-call" || mode == "per-call-after-replication" {
+	if mode == "per-call" || mode == "per-call-after-replication" || mode == "per-call-then-write" {
 		if err := P.Start(); err != nil {
 			return fw.Verdict{Status: fw.Inconclusive, What: "restart: " + err.Error()}
 		}
@@ -282,6 +285,49 @@ func c15Run(c fw.Case) fw.Verdict {
 			}
 		}
 		v.Count("reloads_same_handle", int64(reloads))
+	}
+	if mode == "per-call-then-write" {
+		// the application writes through the partially loaded handle; after another restart a complete load
+		// must show every entry that was persisted before plus the new ones (a limit restricts what is shown,
+		// never what is kept)
+		var added []string
+		for i := 0; i < 1+int(c.Seed%2); i++ {
+			op, err := ApplyOp(bg, s2, honestOp(typ, 5000+i))
+			if err != nil {
+				return fw.Verdict{Status: fw.Violated, Key: "write-after-limited-load-failed/n" + cls, NonTrivial: true, Sig: v.Sig, What: fmt.Sprintf("write on a handle loaded with limit %d failed: %v", n, err)}
+			}
+			added = append(added, op.GetEntry().GetHash().String())
+		}
+		e.W.Settle()
+		P.Stop()
+		e.W.Settle()
+		if err := P.Start(); err != nil {
+			return fw.Verdict{Status: fw.Inconclusive, What: "second restart: " + err.Error()}
+		}
+		if err := e.OpenOn(db, P); err != nil {
+			return fw.Verdict{Status: fw.Inconclusive, What: "second reopen: " + err.Error()}
+		}
+		s3 := db.Stores[P.Idx]
+		if err := s3.Load(ctx, -1); err != nil {
+			return fw.Verdict{Status: fw.Violated, Key: "load-error-after-write/n" + cls, NonTrivial: true, Sig: v.Sig, What: fmt.Sprintf("Load(-1) after a limited load (%d), a write and a restart returned %v", n, err)}
+		}
+		e.W.Settle()
+		got := TakeSnap(typ, s3, P.Idx)
+		have := map[string]bool{}
+		for _, h := range got.Order {
+			have[h] = true
+		}
+		missing := 0
+		for _, h := range append(append([]string{}, full.Order...), added...) {
+			if !have[h] {
+				missing++
+			}
+		}
+		v.Count("complete_loads_after_limited_load_and_write", 1)
+		if missing > 0 || len(got.Order) != total+len(added) {
+			return fw.Verdict{Status: fw.Violated, Key: fmt.Sprintf("complete-load-incomplete-after-limited-load-and-write/n%s/%s", cls, shape), NonTrivial: true, Sig: v.Sig,
+				What: fmt.Sprintf("%s log of %d persisted entries: Load(%d) on a fresh handle, %d local write(s) through it, restart, Load(-1) lists %d entries (%d of the %d expected are missing)", shape, total, n, len(added), len(got.Order), missing, total+len(added))}
+		}
 	}
 	v.Status = fw.Held
 	return v
